@@ -6,6 +6,7 @@
 """
 from .. import dyn, reach, configs
 from .. import refmodel as R
+from .. import universe as U
 from ..choice import ChoiceRng
 from ..desc import mkstate, sdesc, show
 
@@ -96,6 +97,10 @@ def replay(case):
         return judge(tuple(case['names']), tup(case['s']), case['a'])[2]
     if case['kind'] == 'reach':
         return reach.replay_trace(case, make_hooks)
+    if case['kind'] == 'partial_actions':
+        return judge_partial_actions(case['config'], tuple(case['acts']), case['seed'])[1]
+    if case['kind'] == 'corridor':
+        return judge_corridor(tuple(case['shape']), case['via_copy'])[1]
     if case['kind'] == 'stateful':
         return judge_stateful(case['config'], case['seed'])[1]
     raise ValueError(case['kind'])
@@ -122,6 +127,62 @@ def make_hooks(env, name):
         return None
 
     return on_state, on_edge
+
+
+def judge_corridor(shape, via_copy):
+    """walk an all-floor corridor from end to end and back (coordinates pass 127/128 and 255/256), every step compared with
+    the reference kinematics; the state object (or its copies) is carried along, as an episode does"""
+    from gym_gridverse.envs.transition_functions import transition_with_copy
+
+    H, W = shape
+    rows = tuple(tuple(U.FLOOR for _ in range(W)) for _ in range(H))
+    heading = 'B' if H > W else 'R'
+    st = mkstate((rows, 0, 0, heading, U.NONE))
+    fn = dyn.chain_fn(dyn.CHAIN_NAV)
+    n = 0
+    plan = ['MOVE_FORWARD'] * (max(H, W) + 1) + ['TURN_LEFT', 'TURN_LEFT'] + ['MOVE_FORWARD'] * (max(H, W) + 1) + ['MOVE_BACKWARD'] * 3
+    for a in plan:
+        k = sdesc(st)
+        if via_copy:
+            st = transition_with_copy(fn, st, dyn.ACT[a])
+        else:
+            fn(st, dyn.ACT[a])
+        n += 1
+        want = R.ref_turn_agent(R.ref_move_agent(k, a), a)
+        if pose(sdesc(st)) != pose(want):
+            return n, f'corridor {H}x{W}: {a} from {pose(k)} gives {pose(sdesc(st))}, reference {pose(want)}'
+    return n, None
+
+
+def judge_partial_actions(name, acts, seed, depth=3):
+    """the same configuration with a reduced action list (e.g. forward + turns): the remaining actions still move / turn"""
+    import copy
+    import itertools
+
+    from gym_gridverse.action import Action
+
+    from .. import envs
+
+    data = copy.deepcopy(envs.data_of(name))
+    data['action_space'] = list(acts)
+    names = tuple(t['name'] for t in data['transition_functions'])
+    env = configs.build(data)
+    n = 0
+    for seq in itertools.product(acts, repeat=depth):
+        env.set_seed(seed)
+        env.reset()
+        k = sdesc(env.state)
+        for a in seq:
+            env._rng = ChoiceRng([])
+            env.step(Action[a])
+            k2 = sdesc(env.state)
+            n += 1
+            want = ref_poses(names, k, a)
+            if pose(k2) not in want:
+                return n, (f'{name} with action_space {list(acts)}: {a} after {list(seq)}: pose {pose(k)} -> {pose(k2)}, reference '
+                           f'kinematics allows {sorted(want)}')
+            k = k2
+    return n, None
 
 
 def judge_stateful(name, seed):
@@ -170,6 +231,24 @@ def run(rep, tier, seed):
             if m:
                 case = {'kind': 'stateful', 'config': name, 'seed': sd, 'sig': {'part': 'stateful', 'config': name}}
                 rep.violation(case, m)
+    pn = 0
+    for name in ('empty.4x4', 'keydoor.5x5', 'teleport.5x5'):
+        for acts in (('MOVE_FORWARD', 'TURN_LEFT', 'TURN_RIGHT'), ('MOVE_FORWARD', 'MOVE_BACKWARD', 'MOVE_LEFT', 'MOVE_RIGHT', 'TURN_LEFT'),
+                     ('MOVE_LEFT', 'TURN_RIGHT')):
+            k, m = judge_partial_actions(name, acts, seed * 17 + 1)
+            pn += k
+            if m:
+                rep.violation({'kind': 'partial_actions', 'config': name, 'acts': list(acts), 'seed': seed * 17 + 1,
+                               'sig': {'part': 'partial_action_space'}}, m)
+    rep.part('partial_action_spaces', steps=pn)
+    cn = 0
+    for shape in ((1, 131), (131, 1), (1, 260), (260, 2)):
+        for via_copy in (False, True):
+            k, m = judge_corridor(shape, via_copy)
+            cn += k
+            if m:
+                rep.violation({'kind': 'corridor', 'shape': list(shape), 'via_copy': via_copy, 'sig': {'part': 'corridor'}}, m)
+    rep.part('long_corridors', steps=cn, shapes=['1x131', '131x1', '1x260', '260x2'])
     rep.part('stateful_paths', steps=sn)
     rep.assume('dynamics compositions limited to the 7 built-in transition functions alone, the 4 shipped chains and '
                'the full 7-chain in the shipped order')
